@@ -174,4 +174,59 @@ class E3(Component):
         ctx.label("E3:%s/%d" % (case["alphabet"], case["L"]))
 
 
-COMPONENTS = [Random(), E3()]
+class Bundled(Component):
+    """edit_distance_join on slices of the bundled books data (author names) vs own
+    Levenshtein: soundness, distances, completeness for q-gram-sharing pairs."""
+    name = "bundled"
+    kind = "enum"
+    exhaustive = False
+    rule = ("every (slice, q, padding, threshold, operator) configuration listed; non-trivial = "
+            "non-empty result and a q-gram-sharing pair that does not satisfy")
+
+    def bounds(self, tier):
+        return {"slice_rows": 100 if tier == "quick" else 300,
+                "slices": 2 if tier == "quick" else 8}
+
+    def shards(self, tier):
+        return 16
+
+    def budget_s(self, tier):
+        return 200 if tier == "quick" else 3000
+
+    def cases(self, tier):
+        b = self.bounds(tier)
+        for k in range(b["slices"]):
+            for q in (2, 3):
+                for padding in (True, False):
+                    for t in (1, 2, 4):
+                        yield {"offset": 307 * k + 5, "rows": b["slice_rows"], "q": q,
+                               "padding": padding, "threshold": t,
+                               "op": ["<=", "<", "="][(k + t) % 3], "n_jobs": [1, 3][k % 2]}
+
+    def check(self, case, ctx):
+        from .c02 import books_sample
+        A, B = books_sample(0, 10 ** 6)
+        # alphabetically aligned slices: near-duplicate author names fall into both slices
+        A = A[A["Author"].notna()].sort_values("Author", kind="mergesort")
+        B = B[B["Author"].notna()].sort_values("Author", kind="mergesort")
+        fa = (case["offset"] % 89) / 100.0
+        A = A.iloc[int(fa * len(A)):][:case["rows"]]
+        B = B.iloc[int(fa * len(B)):][:case["rows"]]
+        tokcfg = {"kind": "qgram", "q": case["q"], "padding": case["padding"],
+                  "return_set": False}
+        with calls.backend(case["n_jobs"]):
+            df = ctx.lib(JOINS["EDIT_DISTANCE"], A, B, "ID", "ID", "Author", "Author",
+                         case["threshold"], case["op"], False, None, None, "l_", "r_", True,
+                         case["n_jobs"], False, mk_tok(tokcfg))
+        if df is None:
+            return
+        c = {"threshold": case["threshold"], "op": case["op"], "out_sim_score": True,
+             "L": {"key": "ID"}, "R": {"key": "ID"}}
+        a, b = ed_eval(c, ctx, df, A["Author"].tolist(), B["Author"].tolist(), A["ID"].tolist(),
+                       B["ID"].tolist(), tokcfg)
+        ctx.nontrivial(len(df) > 0 and b > 0)
+        ctx.label("bundled:q=%d" % case["q"])
+        ctx.label("bundled-has-near-duplicate(d>=1)", a > 0)
+
+
+COMPONENTS = [Random(), E3(), Bundled()]
